@@ -3,6 +3,7 @@ package worker
 import (
 	"fmt"
 	"os"
+	"strings"
 
 	"vsim/plan"
 )
@@ -155,6 +156,15 @@ func genC09(p *plan.Plan, r *plan.Rng, tier string) {
 		bounds := refillBoundaries
 		if quick {
 			bounds = []int{511, 512, 1023, 1024}
+		}
+		// knob variants: the refill boundaries follow the rewritten buffer size
+		// (a bias for reach, never part of an oracle)
+		var kb int
+		if i := strings.Index(Variant, "-b"); i >= 0 {
+			fmt.Sscanf(Variant[i+2:], "%d", &kb)
+		}
+		if kb > 0 {
+			bounds = []int{kb - 1, kb, 2*kb - 1, 2 * kb, 4*kb - 1, 4 * kb, 8*kb - 1}
 		}
 		types := typesForDoc(sn, r, 3)
 		for _, B := range bounds {
